@@ -187,6 +187,8 @@ func (s *Sim) apply(st Step) bool {
 		return s.stepListerFault(st)
 	case "settle":
 		return s.stepSettle()
+	case "mktwin":
+		return s.stepMkTwin(st)
 	case "finish":
 		return s.stepFinish()
 	}
@@ -954,7 +956,7 @@ func (s *Sim) stepPodEdit(st Step) bool {
 	name := p.Name
 	switch st.K {
 	case "podrm":
-		stDelete(s.Store, KPod, NS, name, metav1.DeleteOptions{})
+		stDelete(s.Store, KPod, p.Namespace, name, metav1.DeleteOptions{})
 		s.count("user.podrm")
 		return true
 	case "podlabel":
@@ -971,7 +973,7 @@ func (s *Sim) stepPodEdit(st Step) bool {
 		}
 		k := sortedKeys(c.Labels)[0]
 		s.count("user.podlabel")
-		return Mutate(s.Store, KPod, NS, name, func(o *v1.Pod) bool {
+		return Mutate(s.Store, KPod, p.Namespace, name, func(o *v1.Pod) bool {
 			if o.Labels == nil {
 				o.Labels = map[string]string{}
 			}
@@ -984,7 +986,7 @@ func (s *Sim) stepPodEdit(st Step) bool {
 		})
 	case "podorphan":
 		s.count("user.podorphan")
-		return Mutate(s.Store, KPod, NS, name, func(o *v1.Pod) bool {
+		return Mutate(s.Store, KPod, p.Namespace, name, func(o *v1.Pod) bool {
 			if len(o.OwnerReferences) == 0 {
 				return false
 			}
@@ -1002,9 +1004,9 @@ func (s *Sim) stepPodEdit(st Step) bool {
 		if c == nil {
 			return false
 		}
-		set, _ := Peek[*asv1.StatefulSet](s.Store, KSet, NS, c.Name)
+		set, _ := Peek[*asv1.StatefulSet](s.Store, KSet, p.Namespace, c.Name)
 		s.count("user.podown")
-		return Mutate(s.Store, KPod, NS, name, func(o *v1.Pod) bool {
+		return Mutate(s.Store, KPod, p.Namespace, name, func(o *v1.Pod) bool {
 			o.OwnerReferences = s.ownerRefs(st.B, set, c)
 			return true
 		})
@@ -1027,7 +1029,7 @@ func (s *Sim) stepKubelet(st Step) bool {
 		if p.DeletionTimestamp == nil {
 			return false
 		}
-		s.Store.Remove(KPod, NS, name)
+		s.Store.Remove(KPod, p.Namespace, name)
 		s.count("kubelet.terminated")
 		return true
 	}
@@ -1039,7 +1041,7 @@ func (s *Sim) stepKubelet(st Step) bool {
 		return false
 	}
 	s.count([]string{"kubelet.ready", "kubelet.running", "kubelet.unready", "kubelet.failed", "kubelet.succeeded", "", "kubelet.scheduled"}[op])
-	return Mutate(s.Store, KPod, NS, name, func(o *v1.Pod) bool {
+	return Mutate(s.Store, KPod, p.Namespace, name, func(o *v1.Pod) bool {
 		before := canonJSON(o.Status) + o.Spec.NodeName
 		setPodPhase(o, phase)
 		return canonJSON(o.Status)+o.Spec.NodeName != before
@@ -1233,5 +1235,41 @@ func (s *Sim) stepSettle() bool {
 		}
 	}
 	s.quiet = wasQuiet
+	return true
+}
+
+// NS2 is a second namespace holding a same-named twin of set 0.
+const NS2 = "other"
+
+// mktwin: a StatefulSet with the name and spec of set A in another namespace,
+// with one pod it controls and one matching orphan. Nothing in namespace NS may
+// ever be confused with it (claims, events, keys are per namespace).
+func (s *Sim) stepMkTwin(st Step) bool {
+	c := s.setCfg(st.A)
+	if c == nil {
+		return false
+	}
+	if _, ok := s.Store.tables[KSet][key(NS2, c.Name)]; ok {
+		return false
+	}
+	obj := BuildSet(c)
+	obj.Namespace = NS2
+	obj.Spec.Replicas = int32p(2)
+	delete(obj.Annotations, annSlots)
+	set, err := stCreate(s.Store, KSet, NS2, obj)
+	if err != nil {
+		return false
+	}
+	tmpl := TemplateFor(c, c.Template)
+	for ord, owned := range []bool{true, false} {
+		p := ModelPod(set, &tmpl, int32(ord), "")
+		if owned {
+			p.OwnerReferences = []metav1.OwnerReference{ownerRefFor(crdAPIVersion, crdKind, set.Name, set.UID)}
+		}
+		if created, err := stCreate(s.Store, KPod, NS2, p); err == nil {
+			Mutate(s.Store, KPod, NS2, created.Name, func(o *v1.Pod) bool { setPodPhase(o, 3); return true })
+		}
+	}
+	s.count("other.mktwin")
 	return true
 }
